@@ -24,7 +24,7 @@ CFG = {
             "offsets and lengths around 0,31..33,63..65,2^16,2^20,2^32,2^63,2^64,2^255,2^256-1; outcome = return data, gas left, tracer "
             "stack digest; RETURNDATACOPY with a non-empty buffer and getDataBig through accessors. "
             "Non-trivial = the real code produced a value (not an invalid-opcode / error outcome); distinct inputs counted.",
-    "tie": {"core/vm.toWordSize / memoryGasCost / callGas / bigUint64 / calcMemSize / gasMLoad..gasRevert, common/math.SafeAdd/SafeSub/SafeMul/S256, params.isForked / IsHomestead / IsByzantium / IsConstantinople (mini-translator)": "translated (go/ssa -> Lean on every run; *_code_is_model theorems: the translated code equals the Model.EvmOps function) + corr",
+    "tie": {"core/vm.toWordSize / memoryGasCost / callGas / bigUint64 / calcMemSize / gasMLoad..gasRevert, common/math.SafeAdd/SafeSub/SafeMul/S256, params.isForked / IsHomestead / IsByzantium / IsConstantinople / IsEIP150 / IsEIP155 / IsEIP158 / IsDAOFork (mini-translator)": "translated (go/ssa -> Lean on every run; *_code_is_model theorems: the translated code equals the Model.EvmOps function) + corr",
             "core/vm/instructions.go op* (25 opcodes)": "corr (Go vs Model.EvmOps) + Spec judgement per case",
             "core/vm/gas_table.go memoryGasCost/gasSha3/gas*Copy/gasM*/makeGasLog/gasCreate/gasReturn/gasExp, gas.go callGas, common.go toWordSize/calcMemSize": "corr (overlay accessors call the real functions)",
             "core/vm/analysis.go codeBitmap/has": "corr (accessor + real JUMPs)",
